@@ -49,6 +49,9 @@ type seqStep struct {
 
 func execSrvSeq(line string) (string, bool) {
 	t := strings.Fields(line)
+	if t[0] == "connect" {
+		return execConnect(line)
+	}
 	parts := splitTok(t[1:], ";")
 	cfg := parts[0]
 	msize := uint32(atou(cfg[0], 32))
